@@ -111,6 +111,23 @@ async def run_bt_async(D: dict, suspend: str = "sleep0", seed: int = 0, dup_subs
                             "stage": stage, "seg": k, "clock": now_tick()})
                 apply(effs)
         handler.__name__ = f"h{hid}"
+
+        def sync_first(event):
+            # a plain callable returning an awaitable: the first segment runs (and may raise) when the handler is CALLED
+            def entry(k):
+                return {"kind": "ev", "ev": event.vid, "job": 0, "src": event.src, "when": tick(event.when), "h": hid,
+                        "stage": stage, "seg": k, "clock": now_tick()}
+            if prog:
+                log.append(entry(1))
+                apply(prog[0])
+
+            async def rest():
+                for k, effs in enumerate(prog[1:], start=2):
+                    await suspend_point()
+                    log.append(entry(k))
+                    apply(effs)
+            return rest()
+        handler.sync_first = sync_first
         return handler
 
     def make_job(pid: int, when: int, jid: int):
@@ -153,8 +170,10 @@ async def run_bt_async(D: dict, suspend: str = "sleep0", seed: int = 0, dup_subs
         access yields a new, equal method object; partials and callable objects have no __name__ / __qualname__."""
         def __init__(self, fn):
             self._fn = fn
-            kind = rng.choice(["method", "method", "callable", "partial"])
-            if kind == "callable":
+            kind = rng.choice(["method", "method", "callable", "partial", "sync_first"])
+            if kind == "sync_first" and hasattr(fn, "sync_first"):
+                self.on_event = fn.sync_first
+            elif kind == "callable":
                 outer = self
 
                 class CallableHandler:
